@@ -546,7 +546,9 @@ func (vt *Model) print(seq ansi.Print) {
 		if col+i > vt.margin.right {
 			break
 		}
-		vt.activeScreen[rw][col+i].Character.Grapheme = " "
+		// (a blank of width 0: the cell may have held the start of a
+		// wide glyph before)
+		vt.activeScreen[rw][col+i].Character = vaxis.Character{Grapheme: " "}
 		vt.activeScreen[rw][col+i].Style = vt.cursor.Style
 	}
 
@@ -628,6 +630,12 @@ func (vt *Model) Draw(win vaxis.Window) {
 
 			if cell.Grapheme == "" {
 				cell.Grapheme = " "
+			}
+			if cell.Grapheme == " " && w > 1 {
+				// A blank is one column wide, whatever was in this
+				// cell before it was blanked
+				cell.Width = 1
+				w = 1
 			}
 			if w > 1 && col+w > vt.width() {
 				// Half of a wide glyph was shifted to the edge of
